@@ -1019,7 +1019,7 @@ def _check_c09(w, plan, res, sends, order, produce_calls, state, produce_written
     tl = [x for x in w.reactors["p0"].timer_log if x[3] == "producer.py"]
     interval = pc["retry_interval"]
     prev = None
-    for q, now, delay, _cr in tl:
+    for q, now, delay, _cr, _fn in tl:
         res.oblige("C09")
         if prev is None:
             ok = close(delay, interval)
